@@ -33,7 +33,7 @@ def WitSem (σ : St) (i : Nat) (th : Thread) (w : Out) : Prop :=
   match th.op with
   | some (.get t k) => w = Spec.get (specAt σ th.witAt) t k
   | some (.keys t) => w = Spec.getKeys (specAt σ th.witAt) t
-  | some o => th.invAt < th.witAt ∧ σ.lin[th.witAt - 1]? = some (i, o, w)
+  | some o => th.invAt < th.witAt ∧ σ.lin[th.witAt - 1]? = some (i, .op o, w)
   | none => True
 
 /-- GetKeys after its lookups: everything it has accepted, and everything it can still accept, was
@@ -68,10 +68,12 @@ def PcInv (σ : St) (i : Nat) (th : Thread) : Pc → Prop
   | .keysContent todo acc => isKeys th.op = true ∧ KeysOk σ.sys th.wit todo acc
   | .beginLock t lvl => σ.owner t = some i ∧ t ≠ mainTx ∧ th.op = some (.begin t lvl)
   | .beginUnlock o => σ.hzLock = some i ∧ th.wit = some o
+  | .commitDereg t => allowed σ i t = true ∧ th.op = some (.commit t)
   | .commitRun t => allowed σ i t = true ∧ th.op = some (.commit t)
+  | .rollbackDereg t => allowed σ i t = true ∧ th.op = some (.rollback t)
   | .rollbackRun t => allowed σ i t = true ∧ th.op = some (.rollback t)
   | .gcHorizon => th.op = some .gc
-  | .gcCollect hz => SafeHz σ.sys hz ∧ hz ≤ σ.sys.counter ∧ th.wit = some .ok
+  | .gcCollect hz => SafeHz σ.closing σ.sys hz ∧ hz ≤ σ.sys.counter ∧ th.wit = some .ok
   | .gcDelete todo => Job σ i todo ∧ th.wit = some .ok
   | .workTake => th.op = some .drain
   | .workDelete todo => Job σ i todo ∧ th.op = some .drain
@@ -82,18 +84,22 @@ structure TInv (σ : St) (i : Nat) (th : Thread) : Prop where
   pc : PcInv σ i th th.pc
 
 structure CInv (σ : St) : Prop where
-  rel : R (withBusy σ) (specOf σ)
-  outs : (Spec.run {} (linOps σ.lin)).2 = linOuts σ.lin
+  rel : Rx σ.closing (withBusy σ) (specOf σ)
+  outs : (Spec.erun {} (linOps σ.lin)).2 = linOuts σ.lin
   thr : ∀ i, TInv σ i (σ.thr i)
   lock : ∀ i, σ.hzLock = some i → ∃ o, (σ.thr i).pc = .beginUnlock o
+  closing : ∀ t ∈ σ.closing, ∃ j, σ.owner t = some j ∧ ((σ.thr j).pc = .commitRun t ∨ (σ.thr j).pc = .rollbackRun t)
+  ownerMain : σ.owner mainTx = none
+  plain : ∀ e ∈ σ.lin, e.2.1.plain = true
 
 /-- what a step of thread `i` guarantees to everybody else -/
 structure Guar (σ σ' : St) (i : Nat) : Prop where
   frame : ∃ t, allowed σ i t = true ∧ Frame σ.sys σ'.sys t
   owner : ∀ t j, σ.owner t = some j → σ'.owner t = some j
-  lin : ∃ ext, σ'.lin = σ.lin ++ ext
+  lin : ∃ ext, σ'.lin = σ.lin ++ ext ∧ ∀ e ∈ ext, e.2.1.plain = true
   busy : ∀ j job, j ≠ i → (j, job) ∈ σ.busy → (j, job) ∈ σ'.busy
   hz : ∀ j, j ≠ i → σ.hzLock = some j → σ'.hzLock = some j
+  closing : ∀ t ∈ σ.closing, t ∈ σ'.closing ∨ ∀ r ∈ σ'.sys.reg, r.id ≠ t
 
 theorem allowed_mono {σ σ' : St} {i : Nat} (g : Guar σ σ' i) {j t : Nat} (h : allowed σ j t = true) :
     allowed σ' j t = true := by
@@ -158,7 +164,7 @@ theorem OwnOk.stable {σ σ' : St} {i : Nat} (g : Guar σ σ' i) {j : Nat} (hij 
 
 theorem WitSem.stable {σ σ' : St} {i : Nat} (g : Guar σ σ' i) {j : Nat} {th : Thread} {w : Out}
     (hle : th.witAt ≤ σ.lin.length) (h : WitSem σ j th w) : WitSem σ' j th w := by
-  obtain ⟨ext, hext⟩ := g.lin
+  obtain ⟨ext, hext, _⟩ := g.lin
   have htake : σ'.lin.take th.witAt = σ.lin.take th.witAt := by
     rw [hext, List.take_append_of_le_length hle]
   have hspec : specAt σ' th.witAt = specAt σ th.witAt := by unfold specAt; rw [htake]
@@ -179,18 +185,23 @@ theorem Job.stable {σ σ' : St} {i : Nat} (g : Guar σ σ' i) {j : Nat} (hij : 
   exact ⟨job, g.busy j job hij h1, h2⟩
 
 theorem SafeHz.stable {σ σ' : St} {i : Nat} (g : Guar σ σ' i) {hz : Nat}
-    (h : SafeHz σ.sys hz) (hc : hz ≤ σ.sys.counter) : SafeHz σ'.sys hz ∧ hz ≤ σ'.sys.counter := by
+    (h : SafeHz σ.closing σ.sys hz) (hc : hz ≤ σ.sys.counter) :
+    SafeHz σ'.closing σ'.sys hz ∧ hz ≤ σ'.sys.counter := by
   obtain ⟨_, _, fr⟩ := g.frame
   refine ⟨?_, Nat.le_trans hc fr.counter⟩
-  intro r hr
+  intro r hr hrc
   rcases fr.regNew r hr with h1 | h1
-  · exact h r h1
+  · apply h r h1
+    intro hin
+    rcases g.closing r.id hin with h2 | h2
+    · exact hrc h2
+    · exact h2 r hr rfl
   · omega
 
 /-- the local assertion of thread `j` survives a step of thread `i ≠ j` -/
 theorem TInv.stable {σ σ' : St} {i : Nat} (g : Guar σ σ' i) {j : Nat} (hij : j ≠ i) {th : Thread}
     (h : TInv σ j th) : TInv σ' j th := by
-  obtain ⟨ext, hext⟩ := g.lin
+  obtain ⟨ext, hext, _⟩ := g.lin
   have hlen : σ.lin.length ≤ σ'.lin.length := by rw [hext]; simp
   refine ⟨Nat.le_trans h.invLe hlen, ?_, ?_⟩
   · intro w hw
@@ -239,7 +250,9 @@ theorem TInv.stable {σ σ' : St} {i : Nat} (g : Guar σ σ' i) {j : Nat} (hij :
       · rw [e] at hs; cases hs
     | beginLock t lvl => rw [hpc] at hp; exact ⟨g.owner t j hp.1, hp.2⟩
     | beginUnlock o => rw [hpc] at hp; exact ⟨g.hz j hij hp.1, hp.2⟩
+    | commitDereg t => rw [hpc] at hp; exact ⟨allowed_mono g hp.1, hp.2⟩
     | commitRun t => rw [hpc] at hp; exact ⟨allowed_mono g hp.1, hp.2⟩
+    | rollbackDereg t => rw [hpc] at hp; exact ⟨allowed_mono g hp.1, hp.2⟩
     | rollbackRun t => rw [hpc] at hp; exact ⟨allowed_mono g hp.1, hp.2⟩
     | gcHorizon => rw [hpc] at hp; exact hp
     | gcCollect hz =>
